@@ -327,11 +327,20 @@ def run(ctx):
     readonly_campaign(ctx, out, specs)
     unhashable_campaign(ctx, out, [sp for sp in specs if gen.spec_size(sp[0]) >= 1][-12:] + [
         ([(0, [(6, []), (1, [(6, [])])]), (6, [])], False), ([((0, "a"), [((6, "b"), [])]), ((1, "a"), [((6, "b"), [])])], True)])
+    # (e) documents (valid and malformed) on the routes load / from_dict / node.from_dict with mappers that raise: whatever
+    # stops the reader, an existing tree stays well-formed (campaign and oracle of props/c03.py)
+    from props import c03 as C03
+
+    C03.documents_campaign(ctx, out, scale=0.35)
     return out
 
 
 def replay(ctx, rp):
     case = rp["case"]
+    if case.get("campaign") == "documents":
+        from props import c03 as C03
+
+        return C03.replay(ctx, rp)
     if case.get("kind") == "unhashable":
         from props.c10 import tuplify_d
         out = core.Outcome()
